@@ -243,16 +243,6 @@ for _m in PUBLIC:
 
 
 @register
-class PrettyStrOps(Contract):
-    targets = ("gemseo.utils.string_tools.pretty_str",)
-    variant = "operators"
-    prop = ("C10",)
-    trusted = True
-    returns = TStr
-    description = "assumed: pretty_str builds a display string (strings only, no effect on the state)"
-
-
-@register
 class OffsetNumber(Contract):
     """f.offset(c) for a number c is f + c: a NEW MDOFunction whose value / Jacobian are the operation / operation Jacobian of an addition maker holding
     (f, c) with numpy.add (only the display strings name, expr and special_repr are then rewritten); f is not modified."""
